@@ -13,12 +13,17 @@ import GPVerif.Bridge.ElboGlue
 import GPVerif.Bridge.GaussExpect
 import GPVerif.Bridge.NgdScalar
 import GPVerif.Bridge.NgdMatrix
+import GPVerif.Bridge.NgdBackward
+import GPVerif.Bridge.NgdBackwardGen
+import GPVerif.Gen.StrategyEnv
 import Mathlib.Algebra.BigOperators.Field
 import Mathlib.Data.Finset.Powerset
 import Mathlib.Tactic.FieldSimp
 import Mathlib.Tactic.Ring
 import Mathlib.Tactic.Linarith
 import Mathlib.Tactic.LinearCombination
+import Mathlib.Tactic.FinCases
+import Mathlib.Tactic.NormNum
 
 namespace C15
 open ELBO DMat Variational
@@ -460,6 +465,237 @@ theorem ngd_gradient_affine (B : DMat M n ℝ) (r : DMat n 1 ℝ) (s R tK nlog :
 
 end Integrals
 
+/-! ## Part 4 — from the code's `backward` to the natural-gradient step
+
+`NaturalVariationalDistribution.forward` (generated: `Gen.NaturalForward`) maps the natural parameters `(θ₁, θ₂)` to
+`(μ, L)`; the objective is evaluated from `(μ, L)`; torch autograd delivers `(dout_dmu, dout_dL)`;
+`_NaturalToMuVarSqrt._backward` (generated: `Gen.NaturalGrad.naturalBackward`, translator `g5_natgrad`) turns that pair
+into the "gradient" handed to `NGD`.  Chain proved here:
+
+  generated forward + primitive contracts  ⟹  `(θ₁, θ₂)` are the natural parameters of `N(μ, LLᵀ)`   (`natural_forward_contract`)
+  the loss `−(1/N)·modelElboN` as a function of `(μ, L)` has gradient `(b + 2Aμ, 2AL)`, `(b, A) = lossGradExpectation`  (`elbo_grad_mu_chol`)
+  generated backward of that pair = `(b, A)` = `−(1/N)(η* − η)`                                         (`natural_backward_elbo_gradient`)
+  generated `NGD.step` with `lr = 1` on it = `η*`                                                        (`ngd_backward_one_step_opt`)
+
+Still observed, not proved: that torch autograd returns the true gradient of the upstream graph (the harness compares the
+`(dout_dmu, dout_dL)` torch delivers with the pair of `elbo_grad_mu_chol`), and the contracts of `psd_safe_cholesky` /
+`solve_triangular`. -/
+
+section NaturalBackward
+open Matrix
+variable {k : Nat}
+
+/-- **natural_backward_adjoint** — `_NaturalToMuVarSqrt._backward` returns the gradient with respect to the expectation
+parameters, for ANY loss: for arbitrary upstream gradients `(g_μ, g_L)`, every direction `(δ₁, δ₂)` of the expectation
+parameters `(ξ₁, ξ₂) = (μ, Σ + μμᵀ)` and the direction `(δμ, δL) = (δ₁, δL)` it induces on `(μ, L)`
+(`δL` lower triangular with `δL·Lᵀ + L·δLᵀ = δΣ = δ₂ − δ₁μᵀ − μδ₁ᵀ`):
+`⟨g_μ, δμ⟩ + ⟨g_L, δL⟩ = ⟨out₁, δ₁⟩ + ⟨out₂, δ₂⟩` (`⟨A,B⟩ = tr(AᵀB)`; `C = L⁻¹`, lower triangular).  About the generated code. -/
+theorem natural_backward_adjoint (h2 : (2 : α) ≠ 0) (gMu mu : DMat k 1 α) (gL L C : DMat k k α)
+    (d1 : Matrix (Fin k) (Fin 1) α) (d2 dL : Matrix (Fin k) (Fin k) α)
+    (hC : C.toMatrix * L.toMatrix = 1) (hClow : ∀ i j, i < j → C.toMatrix i j = 0)
+    (hdL : ∀ i j, i < j → dL i j = 0)
+    (hdir : dL * L.toMatrixᵀ + L.toMatrix * dLᵀ = d2 - d1 * mu.toMatrixᵀ - mu.toMatrix * d1ᵀ) :
+    (gMu.toMatrixᵀ * d1).trace + (gL.toMatrixᵀ * dL).trace
+      = ((Gen.NaturalGrad.naturalBackward gMu gL mu L C).1.toMatrixᵀ * d1).trace
+        + ((Gen.NaturalGrad.naturalBackward gMu gL mu L C).2.toMatrixᵀ * d2).trace := by
+  rw [NgdBackward.gen_naturalBackward_eq,
+    ← NgdBackward.naturalBackward_adjoint gMu mu (NaturalGrad.choleskyBackward gL L C) d1 d2
+      (NgdBackward.choleskyBackward_symm gL L C),
+    ← hdir, NgdBackward.choleskyBackward_adjoint h2 gL L C dL hC hClow hdL]
+
+/-- **natural_backward_is_expectation_gradient** — if the loss has gradient `(b, A)` (`A` symmetric) with respect to the
+expectation parameters, its chain-rule gradient in `(μ, L)` is `(b + 2Aμ, 2AL)`; the generated `_backward` applied to that
+pair returns `(b, A)` — also when only the lower triangle of `dout_dL` agrees with `2AL` (masked upstream graph).
+`L` lower triangular, `C` its inverse. -/
+theorem natural_backward_is_expectation_gradient (h2 : (2 : α) ≠ 0) (A L C gL : DMat k k α) (b mu gMu : DMat k 1 α)
+    (hA : A.toMatrixᵀ = A.toMatrix) (hL : ∀ i j : Fin k, i < j → L.toMatrix i j = 0)
+    (hinv : L.toMatrix * C.toMatrix = 1)
+    (hgMu : gMu.toMatrix = b.toMatrix + (2 : α) • (A.toMatrix * mu.toMatrix))
+    (hgL : ∀ i j : Fin k, j ≤ i → gL.toMatrix i j = ((2 : α) • (A.toMatrix * L.toMatrix)) i j) :
+    Gen.NaturalGrad.naturalBackward gMu gL mu L C = (b, A) := by
+  rw [NgdBackward.gen_naturalBackward_eq]
+  exact NgdBackward.naturalBackward_of_chain h2 A L C gL b mu gMu hA hL hinv hgMu hgL
+
+/-- the same about `_NaturalToMuVarSqrt.backward` (which computes `C = _triangular_inverse(L)` itself; contract of the
+primitive: `L · triInv L = 1`) -/
+theorem natural_function_backward_is_expectation_gradient (h2 : (2 : α) ≠ 0) (triInv : DMat k k α → DMat k k α)
+    (A L gL : DMat k k α) (b mu gMu : DMat k 1 α)
+    (hA : A.toMatrixᵀ = A.toMatrix) (hL : ∀ i j : Fin k, i < j → L.toMatrix i j = 0)
+    (hinv : L.toMatrix * (triInv L).toMatrix = 1)
+    (hgMu : gMu.toMatrix = b.toMatrix + (2 : α) • (A.toMatrix * mu.toMatrix))
+    (hgL : ∀ i j : Fin k, j ≤ i → gL.toMatrix i j = ((2 : α) • (A.toMatrix * L.toMatrix)) i j) :
+    Gen.NaturalGrad.naturalFunctionBackward triInv gMu gL mu L = (b, A) := by
+  rw [NgdBackward.gen_naturalFunctionBackward_eq]
+  exact natural_backward_is_expectation_gradient h2 A L (triInv L) gL b mu gMu hA hL hinv hgMu hgL
+
+/-- **natural_forward_contract** — the generated `_NaturalToMuVarSqrt._forward`, given the contracts of its two
+primitives on the arguments it passes them (`chol X · (chol X)ᵀ = X`, `triInv Y · Y = 1`), returns `(μ, L)` with
+`Σ = L Lᵀ = (−2θ₂)⁻¹` and `μ = Σ θ₁`: the inputs `(θ₁, θ₂)` are the natural parameters `(Σ⁻¹μ, −½Σ⁻¹)` of the Gaussian
+`NaturalVariationalDistribution.forward` returns (`distForward` = `(μ, L Lᵀ)`); the autograd `Function` saves exactly the
+returned pair and `backward` reads it back in that order. -/
+theorem natural_forward_contract (chol triInv : DMat k k α → DMat k k α) (θ₁ : DMat k 1 α) (θ₂ : DMat k k α)
+    (hchol₁ : (chol (θ₂.smul (-2))).toMatrix * (chol (θ₂.smul (-2))).toMatrixᵀ = (-2 : α) • θ₂.toMatrix)
+    (htri : (triInv (chol (θ₂.smul (-2)))).toMatrix * (chol (θ₂.smul (-2))).toMatrix = 1)
+    (hchol₂ : (chol ((triInv (chol (θ₂.smul (-2)))).transpose.mul (triInv (chol (θ₂.smul (-2)))))).toMatrix
+        * (chol ((triInv (chol (θ₂.smul (-2)))).transpose.mul (triInv (chol (θ₂.smul (-2)))))).toMatrixᵀ
+      = (triInv (chol (θ₂.smul (-2)))).toMatrixᵀ * (triInv (chol (θ₂.smul (-2)))).toMatrix) :
+    let out := Gen.NaturalForward.naturalForward chol triInv θ₁ θ₂
+    (out.2.toMatrix * out.2.toMatrixᵀ) * ((-2 : α) • θ₂.toMatrix) = 1
+      ∧ out.1.toMatrix = (out.2.toMatrix * out.2.toMatrixᵀ) * θ₁.toMatrix
+      ∧ Gen.NaturalForward.distForward chol triInv θ₁ θ₂ = (out.1, out.2.mul out.2.transpose)
+      ∧ Gen.NaturalForward.savedAreOutputs = true ∧ Gen.NaturalForward.backwardReadsSaved = true := by
+  intro out
+  set Linv := chol (θ₂.smul (-2)) with hLinv
+  set L' := triInv Linv with hL'
+  have hcomm : Linv.toMatrix * L'.toMatrix = 1 := mul_eq_one_comm.mp htri
+  have hS : out.2.toMatrix * out.2.toMatrixᵀ = L'.toMatrixᵀ * L'.toMatrix := by
+    simpa [out, Gen.NaturalForward.naturalForward] using hchol₂
+  refine ⟨?_, ?_, rfl, rfl, rfl⟩
+  · rw [hS, ← hchol₁, Matrix.mul_assoc, ← Matrix.mul_assoc L'.toMatrix, htri, Matrix.one_mul,
+      ← Matrix.transpose_mul, hcomm, Matrix.transpose_one]
+  · rw [hS]
+    simp only [out, Gen.NaturalForward.naturalForward, toMatrix_mul, toMatrix_transpose]
+    rfl
+
+/-- **natural_backward_elbo_gradient** — for the loss `−ELBO` of the conjugate model at the natural parameters
+`(θ₁, θ₂)`: when the upstream pair is the chain-rule gradient `(b + 2Aμ, 2AL)` with `(b, A) = lossGradExpectation`
+(that it is, is `elbo_grad_mu_chol`), the generated `_backward` returns exactly `lossGradExpectation = −(1/N)(η* − η)` —
+the hypothesis under which `ngd_one_step_opt` was stated. -/
+theorem natural_backward_elbo_gradient (h2 : (2 : α) ≠ 0) (B : DMat M n α) (r : DMat n 1 α) (s N : α)
+    (θ₁ mu gMu : DMat M 1 α) (θ₂ L C gL : DMat M M α)
+    (hθ₂ : θ₂.toMatrixᵀ = θ₂.toMatrix) (hL : ∀ i j : Fin M, i < j → L.toMatrix i j = 0)
+    (hinv : L.toMatrix * C.toMatrix = 1)
+    (hgMu : gMu.toMatrix = (lossGradExpectation B r s N θ₁ θ₂).1.toMatrix
+        + (2 : α) • ((lossGradExpectation B r s N θ₁ θ₂).2.toMatrix * mu.toMatrix))
+    (hgL : ∀ i j : Fin M, j ≤ i →
+        gL.toMatrix i j = ((2 : α) • ((lossGradExpectation B r s N θ₁ θ₂).2.toMatrix * L.toMatrix)) i j) :
+    Gen.NaturalGrad.naturalBackward gMu gL mu L C = lossGradExpectation B r s N θ₁ θ₂ := by
+  have hA : (lossGradExpectation B r s N θ₁ θ₂).2.toMatrixᵀ = (lossGradExpectation B r s N θ₁ θ₂).2.toMatrix := by
+    simp only [lossGradExpectation, optNatural, optPrec, toMatrix_smul, toMatrix_sub, toMatrix_add, toMatrix_one,
+      toMatrix_mul, toMatrix_transpose, Matrix.transpose_smul, Matrix.transpose_sub, Matrix.transpose_add,
+      Matrix.transpose_one, Matrix.transpose_mul, Matrix.transpose_transpose, hθ₂]
+  exact natural_backward_is_expectation_gradient h2 _ L C gL _ mu gMu hA hL hinv hgMu hgL
+
+/-- **ngd_backward_one_step_opt** — the chain from the code's `backward` to the optimum: the generated `NGD.step` with
+`lr = 1`, applied to what the generated `_NaturalToMuVarSqrt._backward` makes of the chain-rule gradient of `−ELBO` in
+`(μ, L)`, lands on `η* = optNatural` (the natural parameters of `q*`, `elbo_opt_attained`) from any start `(θ₁, θ₂)`. -/
+theorem ngd_backward_one_step_opt (h2 : (2 : α) ≠ 0) (B : DMat M n α) (r : DMat n 1 α) (s N : α) (hN : N ≠ 0)
+    (θ₁ mu gMu : DMat M 1 α) (θ₂ L C gL : DMat M M α)
+    (hθ₂ : θ₂.toMatrixᵀ = θ₂.toMatrix) (hL : ∀ i j : Fin M, i < j → L.toMatrix i j = 0)
+    (hinv : L.toMatrix * C.toMatrix = 1)
+    (hgMu : gMu.toMatrix = (lossGradExpectation B r s N θ₁ θ₂).1.toMatrix
+        + (2 : α) • ((lossGradExpectation B r s N θ₁ θ₂).2.toMatrix * mu.toMatrix))
+    (hgL : ∀ i j : Fin M, j ≤ i →
+        gL.toMatrix i j = ((2 : α) • ((lossGradExpectation B r s N θ₁ θ₂).2.toMatrix * L.toMatrix)) i j) :
+    ngdStepMat θ₁ (Gen.NaturalGrad.naturalBackward gMu gL mu L C).1 1 N = (optNatural B r s).1
+      ∧ ngdStepMat θ₂ (Gen.NaturalGrad.naturalBackward gMu gL mu L C).2 1 N = (optNatural B r s).2 := by
+  rw [natural_backward_elbo_gradient h2 B r s N θ₁ mu gMu θ₂ L C gL hθ₂ hL hinv hgMu hgL]
+  exact ngd_one_step_opt B r s N hN θ₁ θ₂
+
+end NaturalBackward
+
+section NaturalBackwardReal
+open Matrix ElboGlue
+
+/-- **elbo_grad_mu_chol** — what torch autograd must deliver to `_NaturalToMuVarSqrt.backward`.  The loss
+`−(1/N)·modelElboN` (the model's `VariationalELBO`: generated scaling ∘ per-point Gaussian terms ∘ `whitenedFwd` ∘ KL), as a
+function of the outputs `(μ, L)` of `NaturalVariationalDistribution.forward` (`S_w = L Lᵀ`), has at every `(μ, L)` with `L`
+invertible the directional derivatives `⟨b + 2Aμ, δμ⟩` and `⟨2AL, δL⟩`, where `(b, A) = lossGradExpectation B r s N θ₁ θ₂`
+`= −(1/N)(η* − η)` and `(θ₁, θ₂) = (Σ⁻¹μ, −½Σ⁻¹)` are the natural parameters (`natural_forward_contract`): exactly the
+upstream pair assumed by `natural_backward_elbo_gradient` / `ngd_backward_one_step_opt`.  (`log det` along the quadratic
+curve `(L+tK)(L+tK)ᵀ` by `NgdMatrix.hasDerivAt_logdet_quad`; no Jacobi formula assumed.) -/
+theorem elbo_grad_mu_chol (hn : n ≠ 0) (Kzx : DMat M n ℝ) (Kxx : DMat n n ℝ) (mX y r : DMat n 1 ℝ) (εx s N : ℝ)
+    (Li : DMat M M ℝ) (mw dm θ₁ : DMat M 1 ℝ) (L K θ₂ : DMat M M ℝ) (hr : r = y.sub mX)
+    (hL : IsUnit L.toMatrix.det)
+    (hθ₁ : θ₁.toMatrix = (L.toMatrix * L.toMatrixᵀ)⁻¹ * mw.toMatrix)
+    (hθ₂ : θ₂.toMatrix = (-(1 / 2 : ℝ)) • (L.toMatrix * L.toMatrixᵀ)⁻¹) :
+    HasDerivAt (fun t : ℝ => -(1 / N) * modelElboN Kzx Kxx mX y εx s Li (mw.add (dm.smul t)) (L.mul L.transpose))
+        ((((lossGradExpectation (Li.mul Kzx) r s N θ₁ θ₂).1.add
+            (((lossGradExpectation (Li.mul Kzx) r s N θ₁ θ₂).2.mul mw).smul 2)).toMatrixᵀ * dm.toMatrix).trace) 0
+      ∧ HasDerivAt (fun t : ℝ => -(1 / N) * modelElboN Kzx Kxx mX y εx s Li mw
+            ((L.add (K.smul t)).mul (L.add (K.smul t)).transpose))
+        (((((lossGradExpectation (Li.mul Kzx) r s N θ₁ θ₂).2.mul L).smul 2).toMatrixᵀ * K.toMatrix).trace) 0 := by
+  set B : Matrix (Fin M) (Fin n) ℝ := (Li.mul Kzx).toMatrix with hB
+  set Cm : Matrix (Fin M) (Fin M) ℝ := B * Bᵀ with hCm
+  set Lm := L.toMatrix with hLm
+  set Sg : Matrix (Fin M) (Fin M) ℝ := Lm * Lmᵀ with hSg
+  have hC : Cmᵀ = Cm := by rw [hCm, Matrix.transpose_mul, Matrix.transpose_transpose]
+  have hrv : colVec r = resid y mX := by
+    funext i; simp [colVec, resid, hr]
+  -- the second component of `lossGradExpectation` is `−(1/N)·gradXi2`
+  have hg2 : (lossGradExpectation (Li.mul Kzx) r s N θ₁ θ₂).2.toMatrix
+      = (-(1 / N)) • NgdBackward.gradXi2 Cm s Sg := by
+    simp only [lossGradExpectation, optNatural, optPrec, toMatrix_smul, toMatrix_sub, toMatrix_add, toMatrix_one,
+      toMatrix_mul, toMatrix_transpose, hθ₂, NgdBackward.gradXi2, one_div, hCm, hB]
+  have hg1 : colVec (lossGradExpectation (Li.mul Kzx) r s N θ₁ θ₂).1
+      = (-(1 / N)) • (s⁻¹ • (B *ᵥ resid y mX) - Sg⁻¹ *ᵥ colVec mw) := by
+    funext i
+    simp only [colVec, lossGradExpectation, optNatural, toMatrix_smul, toMatrix_sub, toMatrix_mul, hθ₁,
+      Matrix.smul_apply, Matrix.sub_apply, Pi.smul_apply, Pi.sub_apply, smul_eq_mul, one_div, ← hrv]
+    simp only [Matrix.mul_apply, Matrix.mulVec, dotProduct, colVec, hB, toMatrix_mul]
+  constructor
+  · have hfun : (fun t : ℝ => -(1 / N) * modelElboN Kzx Kxx mX y εx s Li (mw.add (dm.smul t)) (L.mul L.transpose))
+        = fun t : ℝ => -(1 / N) * NgdBackward.G (B *ᵥ resid y mX) Cm s (resid y mX ⬝ᵥ resid y mX)
+            (addJitter Kxx εx).toMatrix.trace ((Fintype.card (Fin n) : ℝ) / 2 * (Real.log s + Real.log (2 * Real.pi)))
+            (colVec mw + t • colVec dm) Lm := by
+      funext t
+      rw [modelElboN_eq hn, NgdBackward.elboN_eq_F]
+      unfold NgdBackward.G
+      have e1 : colVec (mw.add (dm.smul t)) = colVec mw + t • colVec dm := by
+        funext i; simp [colVec]
+      rw [e1]
+      simp only [toMatrix_mul, toMatrix_transpose, hCm, hB, hLm]
+    rw [hfun]
+    refine ((NgdBackward.hasDerivAt_G_mu _ Cm hC s _ _ _ (colVec mw) (colVec dm) Lm).const_mul (-(1 / N))).congr_deriv ?_
+    rw [NgdBackward.grad_mu_eq _ Cm Sg s (colVec mw), NgdBackward.trace_col_pairing]
+    have hv : (fun i => ((lossGradExpectation (Li.mul Kzx) r s N θ₁ θ₂).1.add
+          (((lossGradExpectation (Li.mul Kzx) r s N θ₁ θ₂).2.mul mw).smul 2)).toMatrix i 0)
+        = (-(1 / N)) • ((s⁻¹ • (B *ᵥ resid y mX) - Sg⁻¹ *ᵥ colVec mw)
+            + (2 : ℝ) • (NgdBackward.gradXi2 Cm s Sg *ᵥ colVec mw)) := by
+      funext i
+      have h1 := congrFun hg1 i
+      simp only [colVec] at h1
+      simp only [toMatrix_add, toMatrix_smul, toMatrix_mul, Matrix.add_apply, Matrix.smul_apply, hg2, h1,
+        Matrix.smul_mul, Pi.smul_apply, Pi.add_apply, smul_eq_mul]
+      simp only [Matrix.mul_apply, Matrix.mulVec, dotProduct, colVec, Pi.sub_apply, Pi.smul_apply, smul_eq_mul]
+      ring
+    rw [hv, smul_dotProduct, smul_eq_mul]
+    rfl
+  · have hfun : (fun t : ℝ => -(1 / N) * modelElboN Kzx Kxx mX y εx s Li mw
+            ((L.add (K.smul t)).mul (L.add (K.smul t)).transpose))
+        = fun t : ℝ => -(1 / N) * NgdBackward.G (B *ᵥ resid y mX) Cm s (resid y mX ⬝ᵥ resid y mX)
+            (addJitter Kxx εx).toMatrix.trace ((Fintype.card (Fin n) : ℝ) / 2 * (Real.log s + Real.log (2 * Real.pi)))
+            (colVec mw) (Lm + t • K.toMatrix) := by
+      funext t
+      rw [modelElboN_eq hn, NgdBackward.elboN_eq_F]
+      unfold NgdBackward.G
+      simp only [toMatrix_mul, toMatrix_transpose, toMatrix_add, toMatrix_smul, hCm, hB, hLm]
+    rw [hfun]
+    refine ((NgdBackward.hasDerivAt_G_L _ Cm hC s _ _ _ (colVec mw) Lm K.toMatrix hL).const_mul (-(1 / N))).congr_deriv ?_
+    simp only [toMatrix_smul, toMatrix_mul, hg2, Matrix.smul_mul, Matrix.transpose_smul, Matrix.trace_smul, smul_eq_mul]
+    ring
+
+end NaturalBackwardReal
+
+/-! ## Part 5 — which `K_ZZ^{-1/2}` an evaluation is built from (generated from `_VariationalStrategy`) -/
+
+/-- **jitter_is_setting_in_force** — with the default constructor argument (`jitter_val=None`) the strategy uses the
+`variational_cholesky_jitter` setting in force *when the objective is evaluated*, for the dtype the inducing points have
+*then* — whatever the setting / dtype was at construction (`settingAtCtor`); an explicit constructor argument or a value
+assigned through the property wins. -/
+theorem jitter_is_setting_in_force {β : Type} (settingAtCtor settingAtUse v : β) :
+    Gen.StrategyEnv.jitterVal (Gen.StrategyEnv.storedJitter none settingAtCtor) settingAtUse = settingAtUse
+      ∧ Gen.StrategyEnv.jitterVal (Gen.StrategyEnv.storedJitter (some v) settingAtCtor) settingAtUse = v
+      ∧ Gen.StrategyEnv.jitterVal (Gen.StrategyEnv.jitterSetter v) settingAtUse = v
+      ∧ Gen.StrategyEnv.settingReadAtCurrentDtype = true :=
+  ⟨rfl, rfl, rfl, rfl⟩
+
+/-- **training_call_starts_from_empty_memo** — a training-mode call of `VariationalStrategy` /
+`UnwhitenedVariationalStrategy` first empties the whole memo table (`if self.training: self._clear_cache()`,
+`_clear_cache = clear_cache_hook(self)`, `clear_cache_hook = (module._memoize_cache = {})`, no override in the two
+strategies): no Cholesky factor, prior or `q(u)` of an earlier call survives into the objective. -/
+theorem training_call_starts_from_empty_memo : Gen.StrategyEnv.trainingCallClearsMemo = true := by decide
+
 /-! ## the hypotheses are satisfiable (non-vacuity) -/
 
 /-- the model returns a `q*` on a concrete instance -/
@@ -474,5 +710,56 @@ example : (boundPieces? (DMat.ofMatrix !![(2 : ℚ), 1; 1, 2]) (DMat.ofMatrix !!
 /-- a positive definite `S_w`, a positive noise and a PSD Schur complement exist (hypotheses of `elbo_le_exact`);
 see also the examples at the end of `Bridge/Collapsed.lean`. -/
 example : (1 : Matrix (Fin 2) (Fin 2) ℝ).PosDef ∧ (0 : ℝ) < 1 / 2 := ⟨Matrix.PosDef.one, by norm_num⟩
+
+section Part4Examples
+open Matrix
+
+/-- Part 4: the hypotheses of `natural_backward_is_expectation_gradient` hold on a concrete instance (with junk in the
+strictly upper triangle of `dout_dL`): the generated `_backward` returns `(b, A)` -/
+example :
+    Gen.NaturalGrad.naturalBackward (DMat.ofMatrix !![(1 : ℚ); 2]) (DMat.ofMatrix !![(8 : ℚ), 99; 14, 6])
+        (DMat.ofMatrix !![(1 : ℚ); -1]) (DMat.ofMatrix !![(2 : ℚ), 0; 1, 1]) (DMat.ofMatrix !![(1 / 2 : ℚ), 0; -1 / 2, 1])
+      = (DMat.ofMatrix !![(3 : ℚ); 4], DMat.ofMatrix !![(1 : ℚ), 2; 2, 3]) :=
+  natural_backward_is_expectation_gradient (by norm_num) _ _ _ _ _ _ _
+    (by decide +kernel)
+    (by intro i j h; fin_cases i <;> fin_cases j <;> first | exact absurd h (by decide) | decide +kernel)
+    (by decide +kernel) (by decide +kernel)
+    (by intro i j h; fin_cases i <;> fin_cases j <;> first | exact absurd h (by decide) | decide +kernel)
+
+/-- a direction satisfying the hypotheses of `natural_backward_adjoint` (same `L`, `μ`) -/
+example : ∃ (d1 : Matrix (Fin 2) (Fin 1) ℚ) (d2 dL : Matrix (Fin 2) (Fin 2) ℚ),
+    (∀ i j, i < j → dL i j = 0) ∧
+    dL * (DMat.ofMatrix !![(2 : ℚ), 0; 1, 1]).toMatrixᵀ + (DMat.ofMatrix !![(2 : ℚ), 0; 1, 1]).toMatrix * dLᵀ
+      = d2 - d1 * (DMat.ofMatrix !![(1 : ℚ); -1]).toMatrixᵀ - (DMat.ofMatrix !![(1 : ℚ); -1]).toMatrix * d1ᵀ :=
+  ⟨!![1; 2], !![6, 8; 8, 0], !![1, 0; 3, -1],
+    by intro i j h; fin_cases i <;> fin_cases j <;> first | exact absurd h (by decide) | decide +kernel,
+    by decide +kernel⟩
+
+/-- the contracts assumed by `natural_forward_contract` are satisfiable (`θ₂ = −½·I`, both primitives the identity on `I`) -/
+example (θ₁ : DMat 2 1 ℚ) :
+    let out := Gen.NaturalForward.naturalForward (fun X => X) (fun X => X) θ₁ ((DMat.one : DMat 2 2 ℚ).smul (-(1 / 2)))
+    out.1.toMatrix = (out.2.toMatrix * out.2.toMatrixᵀ) * θ₁.toMatrix :=
+  (natural_forward_contract (fun X => X) (fun X => X) θ₁ ((DMat.one : DMat 2 2 ℚ).smul (-(1 / 2)))
+    (by decide +kernel) (by decide +kernel) (by decide +kernel)).2.1
+
+/-- `ngd_backward_one_step_opt` (hence `natural_backward_elbo_gradient`) at `L = C = I`, `θ₂ = −½·I`, with the upstream pair
+*defined* as the chain-rule gradient of `elbo_grad_mu_chol`: all hypotheses hold, for every `B`, `r`, `θ₁`, `μ`. -/
+example (B : DMat 2 3 ℚ) (r : DMat 3 1 ℚ) (s N : ℚ) (hN : N ≠ 0) (θ₁ mu : DMat 2 1 ℚ) :
+    let θ₂ : DMat 2 2 ℚ := (DMat.one : DMat 2 2 ℚ).smul (-(1 / 2))
+    let g := lossGradExpectation B r s N θ₁ θ₂
+    ngdStepMat θ₁ (Gen.NaturalGrad.naturalBackward (g.1.add ((g.2.mul mu).smul 2)) ((g.2.mul DMat.one).smul 2) mu
+        DMat.one DMat.one).1 1 N = (optNatural B r s).1 := by
+  intro θ₂ g
+  refine (ngd_backward_one_step_opt (by norm_num) B r s N hN θ₁ mu _ θ₂ DMat.one DMat.one _ ?_ ?_ ?_ ?_ ?_).1
+  · simp [θ₂]
+  · intro i j h; simp [(ne_of_lt h)]
+  · simp
+  · simp [g]
+  · intro i j _; simp [g]
+
+/-- an invertible `L` (hypothesis of `elbo_grad_mu_chol`; `θ₁`, `θ₂` there are *defined* by their equations) -/
+example : IsUnit (DMat.one : DMat 2 2 ℝ).toMatrix.det := by simp
+
+end Part4Examples
 
 end C15
